@@ -29,6 +29,8 @@ SHAPES = {
     'shuffle': ['L', 'N'], 'index_of': ['LI', 'NL'],
 }
 GENERIC = ['L', 'N', 'D', 'LL', 'LI', 'DS', 'LF1']
+# rarely used argument forms, tried on EVERY non-mutator: lists in second / third position, lists of strings, mixed lists
+ANY_POSITION = ['W', 'M', 'SW', 'WS', 'SWW', 'lW', 'WW', 'SM', 'dW', 'MK', 'SWZ']
 
 
 def _args(shape, a, b, c, n, flag):
@@ -50,6 +52,10 @@ def _args(shape, a, b, c, n, flag):
             out.append([[a], [b, c]])
         elif k == 'D':
             out.append({'p': a, 'q': [b]})
+        elif k == 'W':
+            out.append([',', ';', ', ', 'abc', ''])          # strings of different lengths, not ordered by anything
+        elif k == 'M':
+            out.append([3, 'b', None, 1, 'a', [2]])          # values that cannot be ordered against each other
         elif k == 'l':
             out.append([3, 1, 2, 5, 4][:n])
         elif k == 'n':
